@@ -202,10 +202,10 @@ def skinnyCtrSetKey (bd : Build) (f : Family) (w : World) (h : Option Handle) (k
   ctrUpdate w h key.isNone true fun be v =>
     match f, v with
     | .s128, .skinnyCtr 64 kt st =>
-      let (r, ks) := setKey (ops128 bd.tag) p128 kt.ks key size (junkOf 128 junk) (junkOf 128 junk)
+      let (r, ks) := setKey (ops128 bd.tag) guards128 p128 kt.ks key size (junkOf 128 junk) (junkOf 128 junk)
       .ok (r, .skinnyCtr 64 { kt with ks := ks } (resetStream f be st))
     | .s64, .skinnyCtr 32 kt st =>
-      let (r, ks) := setKey (ops64 bd.tag) p64 kt.ks key size (junkOf 64 junk) (junkOf 64 junk)
+      let (r, ks) := setKey (ops64 bd.tag) guards64 p64 kt.ks key size (junkOf 64 junk) (junkOf 64 junk)
       .ok (r, .skinnyCtr 32 { kt with ks := ks } (resetStream f be st))
     | _, _ => .error .wildFree
 
@@ -215,10 +215,10 @@ def skinnyCtrSetTweakedKey (bd : Build) (f : Family) (w : World) (h : Option Han
   ctrUpdate w h key.isNone true fun be v =>
     match f, v with
     | .s128, .skinnyCtr 64 kt st =>
-      let (r, kt) := setTweakedKey (ops128 bd.tag) p128 kt key size (junkOf 128 junk) (junkOf 128 junk)
+      let (r, kt) := setTweakedKey (ops128 bd.tag) guards128 p128 kt key size (junkOf 128 junk) (junkOf 128 junk)
       .ok (r, .skinnyCtr 64 kt (resetStream f be st))
     | .s64, .skinnyCtr 32 kt st =>
-      let (r, kt) := setTweakedKey (ops64 bd.tag) p64 kt key size (junkOf 64 junk) (junkOf 64 junk)
+      let (r, kt) := setTweakedKey (ops64 bd.tag) guards64 p64 kt key size (junkOf 64 junk) (junkOf 64 junk)
       .ok (r, .skinnyCtr 32 kt (resetStream f be st))
     | _, _ => .error .wildFree
 
@@ -228,10 +228,10 @@ def skinnyCtrSetTweak (bd : Build) (f : Family) (w : World) (h : Option Handle) 
   ctrUpdate w h tweak.isNone false fun be v =>
     match f, v with
     | .s128, .skinnyCtr 64 kt st => do
-      let (r, kt) ← setTweak (ops128 bd.tag) p128 bd.setTweakNullOk kt tweak size
+      let (r, kt) := setTweak (ops128 bd.tag) guards128 p128 kt tweak size
       pure (r, .skinnyCtr 64 kt (resetStream f be st))
     | .s64, .skinnyCtr 32 kt st => do
-      let (r, kt) ← setTweak (ops64 bd.tag) p64 bd.setTweakNullOk kt tweak size
+      let (r, kt) := setTweak (ops64 bd.tag) guards64 p64 kt tweak size
       pure (r, .skinnyCtr 32 kt (resetStream f be st))
     | _, _ => .error .wildFree
 
@@ -351,10 +351,10 @@ def skinnyParSetKey (bd : Build) (f : Family) (w : World) (h : Option Handle) (k
       let (id, a) ← w.deref p
       match f, a.val with
       | .s128, .skinnyKey 64 ks =>
-        let (r, ks) := setKey (ops128 bd.tag) p128 ks key size (junkOf 128 junk) (junkOf 128 junk)
+        let (r, ks) := setKey (ops128 bd.tag) guards128 p128 ks key size (junkOf 128 junk) (junkOf 128 junk)
         pure (if r = 0 then w else w.setVal id (.skinnyKey 64 ks), r)
       | .s64, .skinnyKey 32 ks =>
-        let (r, ks) := setKey (ops64 bd.tag) p64 ks key size (junkOf 64 junk) (junkOf 64 junk)
+        let (r, ks) := setKey (ops64 bd.tag) guards64 p64 ks key size (junkOf 64 junk) (junkOf 64 junk)
         pure (if r = 0 then w else w.setVal id (.skinnyKey 32 ks), r)
       | _, _ => .error .wildFree
 
